@@ -330,6 +330,9 @@ func (c *Contract) addClause(p rawLine, path string) error {
 			return fmt.Errorf("loop clause: want 'loop <k> invariant|decreases <expr>'")
 		}
 		k, err := strconv.Atoi(f[0])
+		if f[0] == "*" {
+			k, err = -1, nil // every loop of the function
+		}
 		if err != nil {
 			return fmt.Errorf("loop ordinal: %v", err)
 		}
